@@ -251,7 +251,7 @@ pub fn run(tier: Tier, replay: Option<String>) -> i32 {
             Some(std::sync::Arc::new(move || scenario(&pr)) as zvcore::explore::Scenario)
         });
     }
-    let single = histories(tier.pick(3, 4));
+    let single = histories(tier.pick(4, 5));
     let pairs = histories(2);
     let mut jobs = Vec::new();
     let mut n_hist = 0u64;
@@ -281,7 +281,7 @@ pub fn run(tier: Tier, replay: Option<String>) -> i32 {
     ck.cov("traces_validated_against_impl", ex);
     ck.cov("histories", n_hist);
     ck.cov("exhaustive", true);
-    ck.cov("explanation", format!("for PUB and XPUB: every history of length <= {} over 11 per-subscriber operations (subscribe / unsubscribe to \"\", a, ab, b; three kinds of malformed subscription message) for one subscriber ({} histories) and every pair of histories of length <= 2 for two subscribers ({} pairs); after the subscriptions are processed (PUB: reader tasks to quiescence; XPUB: the application receives them) the socket publishes first frames \"\", a, ab, abc, b, c with a serial second frame. Oracle: reference multiset-of-prefixes model; each subscriber's wire carries message f exactly once iff an active subscription is a byte-prefix of f; wires are well-formed; XPUB.recv returns the subscribers' messages verbatim in per-peer order. states = histories, transitions = executions (default schedule, plus every single deviation for short histories).", tier.pick(3, 4), single.len(), pairs.len() * pairs.len()));
+    ck.cov("explanation", format!("for PUB and XPUB: every history of length <= {} over 11 per-subscriber operations (subscribe / unsubscribe to \"\", a, ab, b; three kinds of malformed subscription message) for one subscriber ({} histories) and every pair of histories of length <= 2 for two subscribers ({} pairs); after the subscriptions are processed (PUB: reader tasks to quiescence; XPUB: the application receives them) the socket publishes first frames \"\", a, ab, abc, b, c with a serial second frame. Oracle: reference multiset-of-prefixes model; each subscriber's wire carries message f exactly once iff an active subscription is a byte-prefix of f; wires are well-formed; XPUB.recv returns the subscribers' messages verbatim in per-peer order. states = histories, transitions = executions (default schedule, plus every single deviation for short histories).", tier.pick(4, 5), single.len(), pairs.len() * pairs.len()));
     ck.assume("matching logic is sequential; interleavings of reader tasks with send are covered by yield points between subscribers (bound 1 on short histories)");
     ck.conclude()
 }
